@@ -15,7 +15,8 @@ CHECKS = {
         text='Seeded exploration of schedules: real falcon.asgi.App + WebSocket + _BufferedReceiver run on a '
              'simulated event loop; every interleaving decision and fault is drawn from one recorded choice list; '
              'FIFO/exactly-once, bound, stop-pull, disconnect order/promptness, lost wake-up (at quiescence), '
-             'pump liveness and cleanup invariants. Sampling of a large schedule space, not exhaustive.',
+             'pump liveness and cleanup invariants; the application side may use a second task (background senders, a '
+             'background receiver racing with close). Sampling of a large schedule space, not exhaustive.',
         note='Trusts CPython asyncio Task/Future/wait, the FIFO ready-queue assumption, and the fake ASGI server '
              '(queue-like receive). Strict bound N is a recorded known finding; N+1 is enforced.'),
     'C17': dict(
@@ -37,8 +38,8 @@ CHECKS = {
                   'asyncio loop; each concurrent response compared with its solo run',
         text='Seeded schedule exploration: 2-3 requests race through one generated WSGI app as real threads of which '
              'exactly one runs at a time (<=4 seeded pre-emptions at line granularity inside falcon and the generated '
-             'finder; cold / pre-compiled / warmed router; the compile lock is a SimLock so contention and deadlock are '
-             'observed), or interleave as tasks through one ASGI app at every receive, send and pause. Every response '
+             'finder; cold / pre-compiled / warmed router; the compile lock and every threading.Lock the application '
+             'creates while it is built are simulator-owned, so contention and deadlock are observed), or interleave as tasks through one ASGI app at every receive, send and pause. Every response '
              'and responder-side observation must equal the solo run on a fresh identical app.',
         note='Pre-emption granularity is a source line of pure-Python falcon; races inside one bytecode line or inside '
              'C code (lru_cache, dict ops) are not explored. Generated apps are order-independent by construction.'),
